@@ -375,7 +375,8 @@ def run_typestate(cfg: CFG, init_states: Iterable, step: Callable[[Node, object]
                 if name in known and known[name] != val:
                     continue  # infeasible: the same flag was decided the other way
                 f3 = frozenset(set(facts2) | {(name, val)})
-            for o in outs:
+            # an exception edge leaves *before* the statement's effect took place
+            for o in ([st] if lab == "exc" else outs):
                 if edge_ok is not None and not edge_ok(node, succ, lab, o):
                     continue
                 key = (o, f3)
